@@ -1,5 +1,6 @@
-import RtenVerif.Lemmas.LoaderConst
+import RtenVerif.Lemmas.LoaderConstGuards
 import RtenVerif.Props.C20
+import RtenVerif.Props.C21
 
 /-!
 # C05 — Loading untrusted model bytes is safe, bounded and well-formed
@@ -65,58 +66,60 @@ example : RtenHeader.fromBuf (RtenHeader.toBuf ⟨2, 32, 8, 40⟩ ++ List.replic
 
 /-! ## T2: accepted constants are well formed -/
 
-/-- `len` elements of `size` bytes are present in the data source: for byte sources the
-elements fit in the bytes present, for typed fields the count is the field's length. -/
-def SrcBacked (src : Src) (size : Nat) (len : Nat) : Prop :=
-  match src with
-  | .raw b => len * size ≤ b.toNat
-  | .ext b _ => len * size ≤ b.toNat
-  | .typed n => len = n.toNat
+theorem finish_ok {ovf : Bool} {shape : List U} {cnt : Cnt} {s : List Nat} {n : Nat}
+    (h : finish ovf shape cnt = .ok s n) :
+    ∃ k, cnt = .n k ∧ s = M.toNs shape ∧ n = k.toNat ∧ WellFormed s n := by
+  cases cnt with
+  | n k =>
+    simp only [finish, tryFromDataG_eq] at h
+    exact ⟨k, rfl, tryFromData_ok h⟩
+  | err e => cases h
+  | panic => cases h
 
-/-- Bytes / elements that actually back an accepted ONNX initializer. -/
+theorem finish_ne_panic {ovf : Bool} {shape : List U} {cnt : Cnt} (h : cnt ≠ .panic) :
+    finish ovf shape cnt ≠ .panic := by
+  cases cnt with
+  | n k => simp only [finish, tryFromDataG_eq]; exact tryFromData_ne_panic _ _
+  | err e => simp [finish]
+  | panic => exact absurd rfl h
+
+/-- The build mode is irrelevant once the count step is done (M2). -/
+theorem finish_mode (ovf : Bool) (shape : List U) (cnt : Cnt) :
+    finish ovf shape cnt = finish false shape cnt := by
+  cases cnt <;> simp [finish, tryFromDataG_eq]
+
+/-- The element-count step of `load_constant` never panics on slices the data loader returned,
+and the elements it counts are present in the data source. -/
+theorem onnxCount_spec (c : OnnxInit) (ext : Option ExtSlice) (hv : ∀ d, ext = some d → d.Valid) :
+    onnxCount c ext ≠ .panic ∧
+    ∀ k, onnxCount c ext = .n k →
+      CntBacked (srcElemSize c.dtype) c.raw ext (typedLen c.typed c.dtype) k.toNat := by
+  unfold onnxCount
+  cases hdt : c.dtype <;> simp only [srcElemSize]
+  · exact makeCount_spec (Or.inr rfl) _ _ _ hv
+  · exact makeCount_spec (Or.inr rfl) _ _ _ hv
+  · exact makeCount_spec (Or.inl rfl) _ _ _ hv
+  · exact makeCount_spec (Or.inl rfl) _ _ _ hv
+  · exact convCount_spec 8 _ _ _ hv
+  · exact convCount_spec 1 _ _ _ hv
+  · exact convCount_spec 8 _ _ _ hv
+  · exact f16Count_spec _ _ _ hv
+  · exact ⟨by simp, fun k hk => by cases hk⟩
+  · exact ⟨by simp, fun k hk => by cases hk⟩
+
+/-- Bytes / elements that actually back an accepted ONNX initializer: the data loader returned
+`ext` (for external data: a valid slice of the registered buffer, C21), and `len` elements of the
+source element size are present in `raw_data` / inside that slice / in the typed field. -/
 def Backed (c : OnnxInit) (len : Nat) : Prop :=
-  SrcBacked (pickSrc c) (srcElemSize c.dtype) len
+  ∃ ext, loadExt c.ext = .ok ext ∧ (∀ d, ext = some d → d.Valid) ∧
+    CntBacked (srcElemSize c.dtype) c.raw ext (typedLen c.typed c.dtype) len
 
-theorem castSliceLen_le {size b o n : U} (h : castSliceLen size b o = some n) :
-    n.toNat * size.toNat ≤ b.toNat := by
-  unfold castSliceLen at h
-  split at h
-  · cases h; simp
-  · split at h
-    · cases h; exact div_mul_le_toNat b size
-    · cases h
-
-theorem directLen_backed {size : U} {src : Src} {n : U} (h : directLen size src = some n) :
-    SrcBacked src size.toNat n.toNat := by
-  cases src with
-  | raw b =>
-    simp only [directLen] at h
-    split at h
-    · cases h; exact div_mul_le_toNat b size
-    · cases h
-  | ext b o => exact castSliceLen_le h
-  | typed k => simp only [directLen] at h; cases h; exact rfl
-
-theorem convLen_backed (size : U) (src : Src) :
-    SrcBacked src size.toNat (convLen size src).toNat := by
-  cases src with
-  | raw b => exact div_mul_le_toNat b size
-  | ext b o => exact div_mul_le_toNat b size
-  | typed k => exact rfl
-
-theorem f16Len_backed {src : Src} {n : U} (h : f16Len src = some n) :
-    SrcBacked src 2 n.toNat := by
-  cases src with
-  | raw b => exact castSliceLen_le (size := 2) h
-  | ext b o => exact castSliceLen_le (size := 2) h
-  | typed k => simp only [f16Len] at h; cases h; exact rfl
-
-/-- **C05.T2 (ONNX)** every initializer `load_constant` accepts: no dimension is negative, the
-tensor's shape is the initializer's `dims`, the ideal product of the dims equals the number of
-elements built from the data source, that number fits `isize`, those elements are present in
-the data source, and (C06) every valid index is in bounds. -/
-theorem c05_T2_onnx (c : OnnxInit) (hi : ∀ d ∈ c.dims, d < 2 ^ 63) {shape : List Nat} {len : Nat}
-    (h : loadConstant c = .ok shape len) :
+/-- **C05.T2 (ONNX)** every initializer `load_constant` accepts (either build mode): no
+dimension is negative, the tensor's shape is the initializer's `dims`, the ideal product of the
+dims equals the number of elements built from the data source, that number fits `isize`, those
+elements are present in the data source, and (C06) every valid index is in bounds. -/
+theorem c05_T2_onnx (ovf : Bool) (c : OnnxInit) (hi : ∀ d ∈ c.dims, d < 2 ^ 63)
+    {shape : List Nat} {len : Nat} (h : loadConstant ovf c = .ok shape len) :
     (∀ d ∈ c.dims, 0 ≤ d) ∧ shape = c.dims.map Int.toNat ∧ WellFormed shape len ∧
     Backed c len ∧
     ∀ idx, ValidIdx (contigDims shape) idx → offset (contigDims shape) idx < len := by
@@ -125,73 +128,62 @@ theorem c05_T2_onnx (c : OnnxInit) (hi : ∀ d ∈ c.dims, d < 2 ^ 63) {shape : 
   · cases h
   · next s hs =>
     obtain ⟨hnn, hsm⟩ := onnxShape_some hs hi
-    have key : ∀ n : U, tryFromData s n = .ok shape len →
-        SrcBacked (pickSrc c) (srcElemSize c.dtype) n.toNat →
-        (∀ d ∈ c.dims, 0 ≤ d) ∧ shape = c.dims.map Int.toNat ∧ WellFormed shape len ∧
-        Backed c len ∧
-        ∀ idx, ValidIdx (contigDims shape) idx → offset (contigDims shape) idx < len := by
-      intro n hn hb
-      obtain ⟨e1, e2, wf⟩ := tryFromData_ok hn
-      refine ⟨hnn, by rw [e1, hsm], wf, ?_, fun idx hv => wf.in_bounds hv⟩
-      unfold Backed
-      rw [e2]
-      exact hb
     split at h
     · cases h
-    · cases h
-    · cases h
-    · simp only at h
-      split at h
-      -- float / int32
-      · next hdt =>
-        split at h
-        · cases h
-        · next n hn => exact key n h (by rw [hdt]; exact directLen_backed hn)
-      · next hdt =>
-        split at h
-        · cases h
-        · next n hn => exact key n h (by rw [hdt]; exact directLen_backed hn)
-      -- uint8 / int8
-      · next hdt =>
-        split at h
-        · cases h
-        · next n hn => exact key n h (by rw [hdt]; exact directLen_backed hn)
-      · next hdt =>
-        split at h
-        · cases h
-        · next n hn => exact key n h (by rw [hdt]; exact directLen_backed hn)
-      -- int64 / double
-      · next hdt => exact key _ h (by rw [hdt]; exact convLen_backed 8 _)
-      · next hdt => exact key _ h (by rw [hdt]; exact convLen_backed 8 _)
-      -- bool
-      · next hdt => exact key _ h (by rw [hdt]; exact convLen_backed 1 _)
-      -- float16
-      · next hdt =>
-        split at h
-        · cases h
-        · next n hn => exact key n h (by rw [hdt]; exact f16Len_backed hn)
-      · cases h
-      · cases h
+    · next ext hext =>
+      have hv : ∀ d, ext = some d → d.Valid := fun d hd => (loadExt_valid (hd ▸ hext)).1
+      obtain ⟨k, hk, e1, e2, wf⟩ := finish_ok h
+      refine ⟨hnn, by rw [e1, hsm], wf, ⟨ext, hext, hv, ?_⟩, fun idx hv' => wf.in_bounds hv'⟩
+      rw [e2]
+      exact (onnxCount_spec c ext hv).2 k hk
+
+/-- External data of an accepted initializer lies inside the registered buffer, at the offset
+the model file names, and is no longer than the length it names (link to C21's `memRange`). -/
+theorem c05_T2_onnx_external (c : OnnxInit) {len : Nat} (hb : Backed c len)
+    {l o b : U} (hraw : c.raw = none) (he : c.ext = .ref l o b) :
+    o.toNat + len * srcElemSize c.dtype ≤ b.toNat ∧ len * srcElemSize c.dtype ≤ l.toNat := by
+  obtain ⟨ext, hext, hv, hc⟩ := hb
+  rw [he] at hext
+  cases ext with
+  | none =>
+    simp only [loadExt] at hext
+    split at hext <;> cases hext
+  | some d =>
+    obtain ⟨_, l', o', b', heq, hs, hbl, hlen⟩ := loadExt_valid hext
+    cases heq
+    unfold CntBacked at hc
+    rw [hraw] at hc
+    simp only at hc
+    omega
+
+/-- C21's own soundness theorem applies to the range the model uses. -/
+example (off len flen s e : Nat) (hf : flen < ExtData.U64_MAX)
+    (h : ExtData.memRange off len flen = .ok (s, e)) : s = off ∧ e = off + len ∧ off + len ≤ flen :=
+  ExtData.c21_mem_range_sound off len flen s e hf h
 
 /-- Non-vacuity of T2 (ONNX): a 2×3 float initializer with 24 bytes of `raw_data`, and an
-int64 initializer read from external data. -/
-example : loadConstant ⟨[2, 3], .float, some 24, .none, ⟨0, 0, 0, 0⟩⟩ = .ok [2, 3] 6 := by decide
-example : loadConstant ⟨[4], .int64, none, .ok 32 8, ⟨0, 0, 0, 0⟩⟩ = .ok [4] 4 := by decide
+int64 initializer read from external data (32 bytes at offset 8 of a 48-byte buffer). -/
+example : loadConstant false ⟨[2, 3], .float, some 24, .none, ⟨0, 0, 0, 0⟩⟩ = .ok [2, 3] 6 := by
+  decide
+example : loadConstant true ⟨[4], .int64, none, .ref 32 8 48, ⟨0, 0, 0, 0⟩⟩ = .ok [4] 4 := by decide
 
 /-- Where the bytes of an accepted `.rten` constant live. -/
 def RBacked (f : RtenFile) (c : RtenConst) (len : Nat) : Prop :=
   match c.data with
-  | .inline n => len = n.toNat
+  | .inline n _ => len = n.toNat
   | .stored off => ∃ tdo, f.tensorDataOffset = some tdo ∧
       tdo.toNat + off.toNat + len * c.ty.size.toNat ≤ f.storageLen.toNat
+
+theorem RType.size_cases {t : RType} : t.size = 1 ∨ t.size = 4 := by
+  cases t <;> simp [RType.size]
 
 /-- **C05.T2 (.rten)** every constant `add_graph_constant` accepts: the shape is the file's
 dims, the ideal product of the dims equals the element count of the data, which fits `isize`;
 inline data has exactly that many elements; stored data occupies
 `[tensor_data_offset + data_offset, … + len * size)` INSIDE the file — over `Nat`, no wrap —
 and (C06) every valid index is in bounds. -/
-theorem c05_T2_rten (f : RtenFile) (c : RtenConst) {shape : List Nat} {len : Nat}
-    (h : addGraphConstant f c = .ok shape len) :
+theorem c05_T2_rten (ovf : Bool) (f : RtenFile) (c : RtenConst) {shape : List Nat} {len : Nat}
+    (h : addGraphConstant ovf f c = .ok shape len) :
     shape = M.toNs c.dims ∧ WellFormed shape len ∧ RBacked f c len ∧
     ∀ idx, ValidIdx (contigDims shape) idx → offset (contigDims shape) idx < len := by
   unfold addGraphConstant at h
@@ -210,7 +202,8 @@ theorem c05_T2_rten (f : RtenFile) (c : RtenConst) {shape : List Nat} {len : Nat
         · unfold fromStorageOffset at h
           split at h
           · cases h
-          · split at h
+          · next n hn =>
+            split at h
             · cases h
             · next byteLen hbl =>
               split at h
@@ -218,7 +211,9 @@ theorem c05_T2_rten (f : RtenFile) (c : RtenConst) {shape : List Nat} {len : Nat
               · next stop hstop =>
                 split at h
                 · next hle =>
-                  obtain ⟨e1, e2, wf⟩ := tryFromData_ok h
+                  rw [rtenCount_spec RType.size_cases n off f.storageLen hbl hstop hle] at h
+                  obtain ⟨k, hk, e1, e2, wf⟩ := finish_ok h
+                  cases hk
                   refine ⟨e1, wf, ⟨tdo, htdo, ?_⟩, fun idx hv => wf.in_bounds hv⟩
                   have a1 := checkedAdd_some hoff
                   have a2 := checkedAdd_some hstop
@@ -227,18 +222,30 @@ theorem c05_T2_rten (f : RtenFile) (c : RtenConst) {shape : List Nat} {len : Nat
                   rw [e2]
                   omega
                 · cases h
-  · next n hd =>
+  · next n start hd =>
     rw [hd]
     split at h
     · cases h
-    · obtain ⟨e1, e2, wf⟩ := tryFromData_ok h
+    · obtain ⟨k, hk, e1, e2, wf⟩ := finish_ok h
+      have hkn : k = n := by
+        unfold inlineCount at hk
+        by_cases h1 : castLeOk c.ty.size (n * c.ty.size) start = true
+        · rw [if_pos h1] at hk
+          by_cases h2 : arcSliceNewOk f.storageLen.toNat
+              (if n * c.ty.size = 0 then none else some start.toNat) (n * c.ty.size).toNat = true
+          · rw [if_pos h2] at hk; cases hk; rfl
+          · rw [if_neg h2] at hk; cases hk
+        · rw [if_neg h1] at hk; cases hk; rfl
+      subst hkn
       exact ⟨e1, wf, e2, fun idx hv => wf.in_bounds hv⟩
 
 /-- For stored constants the checked product is the exact byte length: an accepted constant's
 data is `product(dims) * size` bytes, not a truncation of it. -/
-theorem c05_T2_rten_stored_exact {size : U} {shape : List U} {offset slen : U} {s : List Nat}
-    {len : Nat} (hs : 0 < size.toNat) (h : fromStorageOffset size shape offset slen = .ok s len) :
+theorem c05_T2_rten_stored_exact {ovf : Bool} {size : U} {shape : List U} {offset slen : U}
+    {s : List Nat} {len : Nat} (hs : size = 1 ∨ size = 4)
+    (h : fromStorageOffset ovf size shape offset slen = .ok s len) :
     len = prod (M.toNs shape) ∧ offset.toNat + prod (M.toNs shape) * size.toNat ≤ slen.toNat := by
+  have hpos : 0 < size.toNat := by rcases hs with rfl | rfl <;> decide
   unfold fromStorageOffset at h
   split at h
   · cases h
@@ -251,13 +258,15 @@ theorem c05_T2_rten_stored_exact {size : U} {shape : List U} {offset slen : U} {
       · next stop hstop =>
         split at h
         · next hle =>
-          obtain ⟨_, e2, wf⟩ := tryFromData_ok h
+          rw [rtenCount_spec hs n offset slen hbl hstop hle] at h
+          obtain ⟨k, hk, _, e2, wf⟩ := finish_ok h
+          cases hk
           have p := (checkedProd_one_eq hn).2
           have q := checkedMul_some hbl
           have a2 := checkedAdd_some hstop
           rw [UInt64.le_iff_toNat_le] at hle
           have hlen : len = prod (M.toNs shape) := by
-            rw [e2, UInt64.toNat_div, q, p, Nat.mul_div_cancel _ hs]
+            rw [e2, UInt64.toNat_div, q, p, Nat.mul_div_cancel _ hpos]
           refine ⟨hlen, ?_⟩
           rw [← p, ← q]
           omega
@@ -265,118 +274,405 @@ theorem c05_T2_rten_stored_exact {size : U} {shape : List U} {offset slen : U} {
 
 /-- Non-vacuity of T2 (.rten): a stored 2×2 f32 constant at offset 36 of a 100-byte file, an
 inline constant, and an empty stored constant with a zero dimension. -/
-example : addGraphConstant ⟨some 32, 100⟩ ⟨[2, 2], .f32, .stored 4⟩ = .ok [2, 2] 4 := by decide
-example : addGraphConstant ⟨none, 100⟩ ⟨[3], .i8, .inline 3⟩ = .ok [3] 3 := by decide
-example : addGraphConstant ⟨some 32, 100⟩ ⟨[0, 7], .u8, .stored 68⟩ = .ok [0, 7] 0 := by decide
+example : addGraphConstant true ⟨some 32, 100⟩ ⟨[2, 2], .f32, .stored 4⟩ = .ok [2, 2] 4 := by decide
+example : addGraphConstant false ⟨none, 100⟩ ⟨[3], .i8, .inline 3 40⟩ = .ok [3] 3 := by decide
+example : addGraphConstant true ⟨some 32, 100⟩ ⟨[0, 7], .u8, .stored 68⟩ = .ok [0, 7] 0 := by decide
 
-/-! ## T3: rejections are errors, not panics -/
+/-! ## T3: rejections are errors, not panics
 
-/-- **C05.T3 (ONNX)** `load_constant` never panics, whatever the initializer says. -/
-theorem c05_T3_onnx_no_panic (c : OnnxInit) : loadConstant c ≠ .panic := by
+The model contains an explicit `.panic` branch for every `unwrap` / `expect` / slice index /
+infallible constructor / unchecked arithmetic on these paths; the theorems below show that no
+input reaches one of them. -/
+
+/-- **C05.T3 (ONNX)** `load_constant` never panics, whatever the initializer says and in either
+build mode: `DataSlice::data()`, both `ArcSlice` unwraps, `spare_capacity[..n]` and the
+arithmetic inside `try_from_data` are all unreachable-panic sites. -/
+theorem c05_T3_onnx_no_panic (ovf : Bool) (c : OnnxInit) : loadConstant ovf c ≠ .panic := by
   unfold loadConstant
-  have t := tryFromData_ne_panic
   split
   · simp
-  · split <;> try simp
-    split <;> (try simp) <;> (try exact t _ _) <;> (split <;> (try simp) <;> exact t _ _)
+  · split
+    · simp
+    · next ext hext =>
+      have hv : ∀ d, ext = some d → d.Valid := fun d hd => (loadExt_valid (hd ▸ hext)).1
+      exact finish_ne_panic (onnxCount_spec c _ hv).1
 
-/-- **C05.T3 (.rten)** `add_graph_constant` (after the fixes) never panics, in either build
-mode (the model has no mode parameter: all its arithmetic is checked). -/
-theorem c05_T3_rten_no_panic (f : RtenFile) (c : RtenConst) : addGraphConstant f c ≠ .panic := by
+/-- `load_constant` answers the same in release and overflow-checking builds. -/
+theorem c05_onnx_mode_independent (ovf : Bool) (c : OnnxInit) :
+    loadConstant ovf c = loadConstant false c := by
+  unfold loadConstant
+  split
+  · rfl
+  · split
+    · rfl
+    · exact finish_mode _ _ _
+
+/-- The flatbuffers verifier's guarantee the inline path relies on: the vector's bytes lie inside
+the file buffer.  (Stored constants need no assumption.) -/
+def InFile (f : RtenFile) (c : RtenConst) : Prop :=
+  match c.data with
+  | .inline n start => start.toNat + (n * c.ty.size).toNat ≤ f.storageLen.toNat
+  | .stored _ => True
+
+/-- **C05.T3 (.rten)** `add_graph_constant` (after the fixes) never panics in either build mode:
+both `.expect("storage does not contain data")`, `chunk.try_into().unwrap()` and the arithmetic
+inside `try_from_data` are unreachable-panic sites. -/
+theorem c05_T3_rten_no_panic (ovf : Bool) (f : RtenFile) (c : RtenConst) (hfb : InFile f c) :
+    addGraphConstant ovf f c ≠ .panic := by
+  unfold addGraphConstant
+  unfold InFile at hfb
+  split
+  · split
+    · simp
+    · split
+      · simp
+      · next off _ =>
+        split
+        · simp
+        · unfold fromStorageOffset
+          split
+          · simp
+          · next n _ =>
+            split
+            · simp
+            · next byteLen hbl =>
+              split
+              · simp
+              · next stop hstop =>
+                split
+                · next hle =>
+                  rw [rtenCount_spec RType.size_cases n off f.storageLen hbl hstop hle]
+                  exact finish_ne_panic (by simp)
+                · simp
+  · next n start hd =>
+    rw [hd] at hfb
+    split
+    · simp
+    · rw [inlineCount_spec _ _ _ _ hfb]
+      exact finish_ne_panic (by simp)
+
+/-- Without the verifier's guarantee the `expect` IS reachable: a non-empty vector that is not
+inside the storage. -/
+example : addGraphConstant false ⟨none, 10⟩ ⟨[3], .i8, .inline 3 9⟩ = .panic := by decide
+
+/-- `add_graph_constant` answers the same in release and overflow-checking builds. -/
+theorem c05_rten_mode_independent (ovf : Bool) (f : RtenFile) (c : RtenConst) :
+    addGraphConstant ovf f c = addGraphConstant false f c := by
   unfold addGraphConstant fromStorageOffset
-  have t := tryFromData_ne_panic
   repeat' split
-  all_goals first | exact t _ _ | simp
+  all_goals first | rfl | exact finish_mode _ _ _
 
-/-- **C05.T2+T3 for a whole graph**: building the constants of a graph in order either fails
-with the `LoadError` of the first rejected constant — never with a panic — or yields constants
-each of which was accepted by `build` (hence is well formed by T2). -/
-theorem c05_loadAll {α : Type} (build : α → Outcome) (hnp : ∀ a, build a ≠ .panic) (cs : List α) :
-    (∀ o, loadAll build cs = .error o → ∃ e, o = .err e) ∧
-    (∀ rs, loadAll build cs = .ok rs → ∀ r ∈ rs, ∃ a ∈ cs, build a = .ok r.1 r.2) := by
+/-- **First failure aborts** (`load_graph`'s `?`): if building the constants of a graph in order
+fails, the failure is the outcome of the FIRST constant that is not accepted, and every constant
+before it was accepted. -/
+theorem c05_loadAll_first_error {α : Type} (build : α → Outcome) (cs : List α) {o : Outcome}
+    (h : loadAll build cs = .error o) :
+    ∃ pre c post, cs = pre ++ c :: post ∧ (∀ a ∈ pre, ∃ s n, build a = .ok s n) ∧
+      build c = o ∧ ∀ s n, o ≠ .ok s n := by
   induction cs with
+  | nil => simp [loadAll] at h
+  | cons c cs ih =>
+    simp only [loadAll] at h
+    split at h
+    · next s n hb =>
+      split at h
+      · cases h
+      · next e he =>
+        cases h
+        obtain ⟨pre, c', post, hcs, hpre, hc', hno⟩ := ih he
+        refine ⟨c :: pre, c', post, by rw [hcs]; rfl, ?_, hc', hno⟩
+        intro a ha
+        rcases List.mem_cons.mp ha with rfl | ha
+        · exact ⟨s, n, hb⟩
+        · exact hpre a ha
+    · next hne =>
+      cases h
+      exact ⟨[], c, cs, rfl, by simp, rfl, fun s n hsn => hne s n hsn⟩
+
+/-- **T3 for a whole graph**: if no constant of the graph panics, a failing load fails with a
+`LoadError` (that of the first rejected constant, by `c05_loadAll_first_error`). -/
+theorem c05_loadAll_error_is_err {α : Type} (build : α → Outcome) (cs : List α)
+    (hnp : ∀ a ∈ cs, build a ≠ .panic) {o : Outcome} (h : loadAll build cs = .error o) :
+    ∃ e, o = .err e := by
+  obtain ⟨pre, c, post, hcs, _, hc, hno⟩ := c05_loadAll_first_error build cs h
+  have hmem : c ∈ cs := by rw [hcs]; simp
+  cases ho : o with
+  | ok s n => exact absurd ho (hno s n)
+  | err e => exact ⟨e, rfl⟩
+  | panic => exact absurd (hc.trans ho) (hnp c hmem)
+
+/-- **T2 for a whole graph**: a successful load yields one constant per node, each of them
+accepted by `build`. -/
+theorem c05_loadAll_ok {α : Type} (build : α → Outcome) (cs : List α)
+    {rs : List (List Nat × Nat)} (h : loadAll build cs = .ok rs) :
+    rs.length = cs.length ∧ ∀ r ∈ rs, ∃ a ∈ cs, build a = .ok r.1 r.2 := by
+  induction cs generalizing rs with
   | nil =>
-    refine ⟨fun o h => by simp [loadAll] at h, fun rs h r hr => ?_⟩
     simp only [loadAll] at h
     cases h
-    cases hr
+    exact ⟨rfl, fun r hr => by cases hr⟩
   | cons c cs ih =>
-    refine ⟨fun o h => ?_, fun rs h r hr => ?_⟩
-    · simp only [loadAll] at h
+    simp only [loadAll] at h
+    split at h
+    · next s n hb =>
       split at h
-      · split at h
-        · cases h
-        · next e he => cases h; exact ih.1 _ he
-      · next o' hne =>
+      · next rest hrest =>
         cases h
-        cases hb : build c with
-        | ok s n => exact absurd hb (hne s n)
-        | err e => exact ⟨e, rfl⟩
-        | panic => exact absurd hb (hnp c)
-    · simp only [loadAll] at h
-      split at h
-      · next s n hb =>
-        split at h
-        · next rest hrest =>
-          cases h
-          rcases List.mem_cons.mp hr with rfl | hr
-          · exact ⟨c, List.mem_cons_self .., hb⟩
-          · obtain ⟨a, ha, hba⟩ := ih.2 rest hrest r hr
-            exact ⟨a, List.mem_cons_of_mem _ ha, hba⟩
-        · cases h
+        obtain ⟨hl, hall⟩ := ih hrest
+        refine ⟨by simp [hl], fun r hr => ?_⟩
+        rcases List.mem_cons.mp hr with rfl | hr
+        · exact ⟨c, List.mem_cons_self .., hb⟩
+        · obtain ⟨a, ha, hba⟩ := hall r hr
+          exact ⟨a, List.mem_cons_of_mem _ ha, hba⟩
       · cases h
+    · cases h
 
 /-- Every constant of a successfully loaded `.rten` graph is well formed. -/
-theorem c05_rten_graph (f : RtenFile) (cs : List RtenConst) {rs : List (List Nat × Nat)}
-    (h : loadAll (addGraphConstant f) cs = .ok rs) : ∀ r ∈ rs, WellFormed r.1 r.2 := by
-  intro r hr
-  obtain ⟨a, _, ha⟩ := (c05_loadAll _ (c05_T3_rten_no_panic f) cs).2 rs h r hr
-  exact (c05_T2_rten f a ha).2.1
-
-/-- Every constant of a successfully loaded ONNX graph is well formed. -/
-theorem c05_onnx_graph (cs : List OnnxInit) (hi : ∀ c ∈ cs, ∀ d ∈ c.dims, d < 2 ^ 63)
-    {rs : List (List Nat × Nat)} (h : loadAll loadConstant cs = .ok rs) :
+theorem c05_rten_graph (ovf : Bool) (f : RtenFile) (cs : List RtenConst)
+    {rs : List (List Nat × Nat)} (h : loadAll (addGraphConstant ovf f) cs = .ok rs) :
     ∀ r ∈ rs, WellFormed r.1 r.2 := by
   intro r hr
-  obtain ⟨a, hm, ha⟩ := (c05_loadAll _ c05_T3_onnx_no_panic cs).2 rs h r hr
-  exact (c05_T2_onnx a (hi a hm) ha).2.2.1
+  obtain ⟨a, _, ha⟩ := (c05_loadAll_ok _ cs h).2 r hr
+  exact (c05_T2_rten ovf f a ha).2.1
+
+/-- A `.rten` graph whose inline vectors lie inside the file never panics while its constants
+are built: the load fails with the first constant's `LoadError` or succeeds. -/
+theorem c05_rten_graph_no_panic (ovf : Bool) (f : RtenFile) (cs : List RtenConst)
+    (hfb : ∀ c ∈ cs, InFile f c) {o : Outcome}
+    (h : loadAll (addGraphConstant ovf f) cs = .error o) : ∃ e, o = .err e :=
+  c05_loadAll_error_is_err _ cs (fun a ha => c05_T3_rten_no_panic ovf f a (hfb a ha)) h
+
+/-! ### Constants of a whole ONNX graph: initializers, `Constant` nodes, promoted attributes -/
+
+/-- A constant-producing item of an ONNX graph. -/
+inductive OnnxItem where
+  | init (t : OnnxInit)                              -- `graph.initializer`
+  | constNode (outputs : Nat) (attrs : List ConstAttr) -- a `Constant` operator node
+  | attrInput (n : Option U)                         -- attribute promoted to an operator input
+  deriving DecidableEq, Repr
+
+def buildItem (ovf : Bool) : OnnxItem → Outcome
+  | .init t => loadConstant ovf t
+  | .constNode o attrs => constOp ovf o attrs
+  | .attrInput n => attrConstant ovf n
+
+/-- `Tensor::from_data(&[n], vec)` for a vector of `n` elements (`n ≤ isize::MAX`: every `Vec`). -/
+theorem M_tryFromData_vec (n : U) (h : n.toNat ≤ isizeMax) :
+    M.tryFromData [n] n = .ok (M.contigDims [n]) := by
+  have hW := isizeMax_lt_wordSize
+  have hI1 : 1 ≤ isizeMax := by decide
+  have hfit : prodNZ (M.toNs [n]) ≤ isizeMax := by
+    simp only [M.toNs, List.map, prodNZ]
+    split <;> omega
+  have hsome : (M.checkedShapeLen [n]).isNone = false := by
+    have e := M.checkedShapeLen_eq [n]
+    rw [TensorBounds.checkedShapeLen_eq, if_pos hfit] at e
+    cases hc : M.checkedShapeLen [n] with
+    | none => rw [hc] at e; cases e
+    | some v => rfl
+  have hmin : M.minDataLen (M.contigDims [n]) = n := by
+    apply UInt64.toNat_inj.mp
+    have hmo := maxOffset_contig_lt (M.toNs [n])
+    rw [M.minDataLen_toNat (M.contigDims [n]) (by rw [M.contigDims_toN _ hfit]; omega),
+      M.contigDims_toN _ hfit,
+      minDataLen_contig]
+    simp [M.toNs, prod]
+  unfold M.tryFromData
+  simp [hsome, hmin]
+
+theorem M_tryFromData_scalar : M.tryFromData [] 1 = .ok [] := by decide
+
+theorem wf_scalar : WellFormed [] 1 :=
+  M_tryFromData_ok (shape := []) (len := 1) M_tryFromData_scalar
+
+theorem wf_vec (k : U) (h : k.toNat ≤ isizeMax) : WellFormed [k.toNat] k.toNat :=
+  M_tryFromData_ok (shape := [k]) (len := k) (M_tryFromData_vec k h)
+
+theorem fromDataG_scalar (ovf : Bool) : fromDataG ovf [] 1 = .ok [] 1 := by
+  rw [fromDataG_eq]; simp only [fromData, M_tryFromData_scalar]; rfl
+
+theorem fromDataG_vec (ovf : Bool) (k : U) (h : k.toNat ≤ isizeMax) :
+    fromDataG ovf [k] k = .ok [k.toNat] k.toNat := by
+  rw [fromDataG_eq]; simp only [fromData, M_tryFromData_vec k h]; rfl
+
+theorem loadConstant_ok_wf {ovf : Bool} {c : OnnxInit} {s : List Nat} {n : Nat}
+    (h : loadConstant ovf c = .ok s n) : WellFormed s n := by
+  unfold loadConstant at h
+  split at h
+  · cases h
+  · split at h
+    · cases h
+    · obtain ⟨k, _, _, _, wf⟩ := finish_ok h
+      exact wf
+
+/-- The element counts of the `Constant` node's list attributes are lengths of `Vec`s. -/
+def AttrLensFit : ConstAttr → Prop
+  | .valueInts n | .valueFloats n => n.toNat ≤ isizeMax
+  | _ => True
+
+theorem constAttr_spec (ovf : Bool) (a : ConstAttr) (ha : AttrLensFit a) :
+    constAttr ovf a ≠ .panic ∧ ∀ s n, constAttr ovf a = .ok s n → WellFormed s n := by
+  cases a with
+  | value t =>
+    exact ⟨c05_T3_onnx_no_panic ovf t, fun s n h => loadConstant_ok_wf (by simpa [constAttr] using h)⟩
+  | valueInt =>
+    simp only [constAttr, fromDataG_scalar]
+    exact ⟨by simp, fun s n h => by cases h; exact wf_scalar⟩
+  | valueFloat =>
+    simp only [constAttr, fromDataG_scalar]
+    exact ⟨by simp, fun s n h => by cases h; exact wf_scalar⟩
+  | valueInts k =>
+    have hk : k.toNat ≤ isizeMax := ha
+    simp only [constAttr, fromDataG_vec ovf k hk]
+    exact ⟨by simp, fun s n h => by cases h; exact wf_vec k hk⟩
+  | valueFloats k =>
+    have hk : k.toNat ≤ isizeMax := ha
+    simp only [constAttr, fromDataG_vec ovf k hk]
+    exact ⟨by simp, fun s n h => by cases h; exact wf_vec k hk⟩
+  | valueNoTensor => exact ⟨by simp [constAttr], fun s n h => by cases h⟩
+  | unnamed => exact ⟨by simp [constAttr], fun s n h => by cases h⟩
+  | other => exact ⟨by simp [constAttr], fun s n h => by cases h⟩
+
+theorem constOpGo_spec (ovf : Bool) (attrs : List ConstAttr) (cur : Option (List Nat × Nat))
+    (ha : ∀ a ∈ attrs, AttrLensFit a) (hcur : ∀ s n, cur = some (s, n) → WellFormed s n) :
+    constOpGo ovf attrs cur ≠ .panic ∧
+    ∀ s n, constOpGo ovf attrs cur = .ok s n → WellFormed s n := by
+  induction attrs generalizing cur with
+  | nil =>
+    cases cur with
+    | none => exact ⟨by simp [constOpGo], fun s n h => by cases h⟩
+    | some p =>
+      obtain ⟨s', n'⟩ := p
+      exact ⟨by simp [constOpGo], fun s n h => by
+        simp only [constOpGo] at h; cases h; exact hcur _ _ rfl⟩
+  | cons a as ih =>
+    have has : ∀ a ∈ as, AttrLensFit a := fun x hx => ha x (List.mem_cons_of_mem _ hx)
+    by_cases hun : a = .unnamed
+    · subst hun
+      simp only [constOpGo]
+      exact ih cur has hcur
+    · have hstep : constOpGo ovf (a :: as) cur =
+          match constAttr ovf a with
+          | .ok s n => if cur.isSome then .err .opinvalid else constOpGo ovf as (some (s, n))
+          | o => o := by
+        cases a <;> first | exact absurd rfl hun | rfl
+      rw [hstep]
+      obtain ⟨hnp, hok⟩ := constAttr_spec ovf a (ha a (List.mem_cons_self ..))
+      cases hc : constAttr ovf a with
+      | ok s n =>
+        simp only
+        split
+        · exact ⟨by simp, fun s' n' h => by cases h⟩
+        · exact ih (some (s, n)) has (fun s' n' h => by cases h; exact hok s n hc)
+      | err e => exact ⟨by simp, fun s n h => by cases h⟩
+      | panic => exact absurd hc hnp
+
+/-- **M3** a `Constant` node — `value` (→ `load_constant`), `value_int(s)` / `value_float(s)`
+(infallible `Tensor::from_data`, shape taken from the data itself), several / no / unsupported
+value attributes — never panics, and the constant it yields is well formed. -/
+theorem c05_constop (ovf : Bool) (outputs : Nat) (attrs : List ConstAttr)
+    (ha : ∀ a ∈ attrs, AttrLensFit a) :
+    constOp ovf outputs attrs ≠ .panic ∧
+    ∀ s n, constOp ovf outputs attrs = .ok s n → WellFormed s n := by
+  unfold constOp
+  split
+  · exact ⟨by simp, fun s n h => by cases h⟩
+  · exact constOpGo_spec ovf attrs none ha (fun s n h => by cases h)
+
+/-- **M3** an attribute promoted to an operator input (`constant_from_attr_value`) builds a
+scalar or a vector whose shape is its own length: it cannot panic, and is well formed. -/
+theorem c05_attr_constant (ovf : Bool) (n : Option U) (hn : ∀ k, n = some k → k.toNat ≤ isizeMax) :
+    attrConstant ovf n ≠ .panic ∧ ∀ s m, attrConstant ovf n = .ok s m →
+      WellFormed s m ∧ s = (match n with | none => [] | some k => [k.toNat]) := by
+  cases n with
+  | none =>
+    simp only [attrConstant, fromDataG_scalar]
+    exact ⟨by simp, fun s m h => by cases h; exact ⟨wf_scalar, rfl⟩⟩
+  | some k =>
+    simp only [attrConstant, fromDataG_vec ovf k (hn k rfl)]
+    exact ⟨by simp, fun s m h => by cases h; exact ⟨wf_vec k (hn k rfl), rfl⟩⟩
+
+/-- The `Vec`-length hypothesis is what keeps `from_data(&[n], data)` from panicking: a
+(physically impossible) vector of `2^63` elements would exceed the tensor size limit. -/
+example : fromDataG false [9223372036854775808] 9223372036854775808 = .panic := by decide
+example : constOp false 1 [.valueInts 3] = .ok [3] 3 ∧ constOp true 1 [.valueFloat] = .ok [] 1 ∧
+    constOp false 1 [.valueInts 0, .valueFloat] = .err .opinvalid ∧
+    constOp false 1 [] = .err .opinvalid ∧ constOp false 2 [.valueInt] = .err .opinvalid ∧
+    constOp false 1 [.unnamed, .value ⟨[-1], .float, none, .none, ⟨0, 0, 0, 0⟩⟩] = .err .shape := by
+  decide
+
+def ItemFits : OnnxItem → Prop
+  | .init t => ∀ d ∈ t.dims, d < 2 ^ 63
+  | .constNode _ attrs => ∀ a ∈ attrs, AttrLensFit a
+  | .attrInput n => ∀ k, n = some k → k.toNat ≤ isizeMax
+
+theorem buildItem_spec (ovf : Bool) (it : OnnxItem) (hf : ItemFits it) :
+    buildItem ovf it ≠ .panic ∧ ∀ s n, buildItem ovf it = .ok s n → WellFormed s n := by
+  cases it with
+  | init t =>
+    exact ⟨c05_T3_onnx_no_panic ovf t, fun s n h => (c05_T2_onnx ovf t hf h).2.2.1⟩
+  | constNode o attrs => exact c05_constop ovf o attrs hf
+  | attrInput k =>
+    obtain ⟨h1, h2⟩ := c05_attr_constant ovf k hf
+    exact ⟨h1, fun s n h => (h2 s n h).1⟩
+
+/-- **Every constant of an ONNX graph** — initializers, `Constant` nodes of every flavour and
+attributes promoted to inputs: the load never panics (it fails with the first item's
+`LoadError`), and on success every constant is well formed. -/
+theorem c05_onnx_graph (ovf : Bool) (items : List OnnxItem) (hf : ∀ it ∈ items, ItemFits it) :
+    (∀ o, loadAll (buildItem ovf) items = .error o → ∃ e, o = .err e) ∧
+    (∀ rs, loadAll (buildItem ovf) items = .ok rs → ∀ r ∈ rs, WellFormed r.1 r.2) := by
+  refine ⟨fun o h => c05_loadAll_error_is_err _ items
+      (fun a ha => (buildItem_spec ovf a (hf a ha)).1) h, fun rs h r hr => ?_⟩
+  obtain ⟨a, ha, hba⟩ := (c05_loadAll_ok _ items h).2 r hr
+  exact (buildItem_spec ovf a (hf a ha)).2 _ _ hba
 
 /-- **(c) negative ONNX dims** are always rejected with the "invalid shape" error, before any
 data is looked at. -/
-theorem c05_onnx_negative_dim_rejected (c : OnnxInit) (h : ∃ d ∈ c.dims, d < 0) :
-    loadConstant c = .err .shape := by
+theorem c05_onnx_negative_dim_rejected (ovf : Bool) (c : OnnxInit) (h : ∃ d ∈ c.dims, d < 0) :
+    loadConstant ovf c = .err .shape := by
   unfold loadConstant
   rw [onnxShape_none_iff_neg.mpr h]
 
 /-- **(d) completeness of the range check**: a stored constant whose bytes would end past the
-end of the file — in particular whenever `offset + size * product(dims)` does not fit in 64
-bits — is rejected with "invalid tensor data offset"; nothing wraps into range. -/
-theorem c05_rten_out_of_file_rejected (size : U) (shape : List U) (offset slen : U)
-    (h : slen.toNat < offset.toNat + prod (M.toNs shape) * size.toNat) :
-    fromStorageOffset size shape offset slen = .err .offset := by
-  unfold fromStorageOffset
+end of the file — in particular whenever `tensor_data_offset + data_offset + size *
+product(dims)` does not fit in 64 bits — is rejected with "invalid tensor data offset" by
+`add_graph_constant`; nothing wraps into range. -/
+theorem c05_rten_out_of_file_rejected (ovf : Bool) (f : RtenFile) (dims : List U) (ty : RType)
+    (dataOffset tdo : U) (hty : ty ≠ .other) (htdo : f.tensorDataOffset = some tdo)
+    (h : f.storageLen.toNat <
+      tdo.toNat + dataOffset.toNat + prod (M.toNs dims) * ty.size.toNat) :
+    addGraphConstant ovf f ⟨dims, ty, .stored dataOffset⟩ = .err .offset := by
+  unfold addGraphConstant
+  simp only [htdo]
   split
   · rfl
-  · next n hn =>
-    have p := (checkedProd_one_eq hn).2
+  · next offset hoff =>
+    have a0 := checkedAdd_some hoff
+    simp only [hty, if_false]
+    unfold fromStorageOffset
     split
     · rfl
-    · next byteLen hbl =>
-      have q := checkedMul_some hbl
+    · next n hn =>
+      have p := (checkedProd_one_eq hn).2
       split
       · rfl
-      · next stop hstop =>
-        have a := checkedAdd_some hstop
+      · next byteLen hbl =>
+        have q := checkedMul_some hbl
         split
-        · next hle =>
-          rw [UInt64.le_iff_toNat_le] at hle
-          rw [← p, ← q] at h
-          omega
         · rfl
+        · next stop hstop =>
+          have a := checkedAdd_some hstop
+          split
+          · next hle =>
+            rw [UInt64.le_iff_toNat_le] at hle
+            rw [← p, ← q] at h
+            omega
+          · rfl
 
-/-- Non-vacuity: `2^64` one-byte elements at offset 5 of a 408-byte file. -/
-example : (408 : U).toNat < (5 : U).toNat +
-    prod (M.toNs [65536, 65536, 65536, 65536]) * (1 : U).toNat := by decide
+/-- Non-vacuity: `2^64` one-byte elements at offset 400 + 5 of a 408-byte file. -/
+example : addGraphConstant false ⟨some 400, 408⟩ ⟨[65536, 65536, 65536, 65536], .u8, .stored 5⟩ =
+    .err .offset := by decide
 
 /-! ## The code before the C05 fixes -/
 
@@ -384,8 +680,8 @@ example : (408 : U).toNat < (5 : U).toNat +
 `ArcTensorView::from_data` panic inside `Model::load` (harness request
 `rtenold rel inline f32 3 n=2`). -/
 theorem c05_T3_old_inline_false :
-    Old.addGraphConstant false ⟨none, 0⟩ ⟨[3], .f32, .inline 2⟩ = .panic ∧
-    Old.addGraphConstant true ⟨none, 0⟩ ⟨[3], .f32, .inline 2⟩ = .panic := by decide
+    Old.addGraphConstant false ⟨none, 0⟩ ⟨[3], .f32, .inline 2 0⟩ = .panic ∧
+    Old.addGraphConstant true ⟨none, 0⟩ ⟨[3], .f32, .inline 2 0⟩ = .panic := by decide
 
 /-- **T3 was false (2)**: stored constants whose dims multiply past the address space.
 `[65536, 65536, 65536, 65536]` (u8): the element count wraps to 0, the empty byte range is in
@@ -407,14 +703,14 @@ theorem c05_T3_old_offset_add_false :
 
 /-- The fixed code answers the same requests with a `LoadError`. -/
 theorem c05_T3_fixed_rejects_witnesses :
-    addGraphConstant ⟨none, 0⟩ ⟨[3], .f32, .inline 2⟩ = .err .mismatch ∧
-    addGraphConstant ⟨some 400, 408⟩ ⟨[65536, 65536, 65536, 65536], .u8, .stored 5⟩ = .err .offset ∧
-    addGraphConstant ⟨some 392, 420⟩ ⟨[2147483648, 2147483648], .i32, .stored 0⟩ = .err .offset ∧
-    addGraphConstant ⟨some 400, 401⟩
+    addGraphConstant true ⟨none, 100⟩ ⟨[3], .f32, .inline 2 0⟩ = .err .mismatch ∧
+    addGraphConstant true ⟨some 400, 408⟩ ⟨[65536, 65536, 65536, 65536], .u8, .stored 5⟩ = .err .offset ∧
+    addGraphConstant false ⟨some 392, 420⟩ ⟨[2147483648, 2147483648], .i32, .stored 0⟩ = .err .offset ∧
+    addGraphConstant true ⟨some 400, 401⟩
       ⟨[4294967295, 4294967295, 4294967295, 0], .i8, .stored 0⟩ = .err .offset ∧
-    addGraphConstant ⟨some 400, 401⟩
+    addGraphConstant true ⟨some 400, 401⟩
       ⟨[0, 4294967295, 4294967295, 4294967295], .i8, .stored 0⟩ = .err .mismatch ∧
-    fromStorageOffset 1 [4294967295, 4294967295] 18446744073709551615 100 = .err .offset := by
+    fromStorageOffset true 1 [4294967295, 4294967295] 18446744073709551615 100 = .err .offset := by
   decide
 
 /-- **T2 already held before the C05 fixes** (partial statement: T2 without T3): whatever the
@@ -458,7 +754,7 @@ theorem c05_T2_rten_old (ovf : Bool) (f : RtenFile) (c : RtenConst) {shape : Lis
                   rw [e2]
                   omega
                 · cases h
-  · next n hd =>
+  · next n start hd =>
     rw [hd]
     split at h
     · cases h
@@ -469,8 +765,8 @@ theorem c05_T2_rten_old (ovf : Bool) (f : RtenFile) (c : RtenConst) {shape : Lis
 panic, the fixed code returns exactly the same outcome — the same constant or the same error. -/
 theorem c05_fix_conservative_stored (size : U) (shape : List U) (offset slen : U)
     (hs : size = 1 ∨ size = 4)
-    (h : Old.fromStorageOffset false size shape offset slen ≠ .panic) :
-    fromStorageOffset size shape offset slen =
+    (h : Old.fromStorageOffset false size shape offset slen ≠ .panic) (ovf : Bool) :
+    fromStorageOffset ovf size shape offset slen =
       Old.fromStorageOffset false size shape offset slen := by
   have hI : isizeMax = 9223372036854775807 := rfl
   have addN : ∀ a b : U, (a + b).toNat = (a.toNat + b.toNat) % 18446744073709551616 := M.add_toNat
@@ -527,9 +823,14 @@ theorem c05_fix_conservative_stored (size : U) (shape : List U) (offset slen : U
         have := ltN (n' * size)
         have := ltN offset
         omega
+      have hbl : checkedMul n' size = some (n' * size) := by simp only [checkedMul, hmul, if_true]
+      have hst : checkedAdd offset (n' * size) = some (offset + n' * size) := by
+        simp only [checkedAdd, hadd, if_true]
       unfold fromStorageOffset
       rw [hn']
-      simp only [checkedMul, hmul, if_true, checkedAdd, hadd, hr.2]
+      simp only [hbl, hst, hr.2, if_true]
+      rw [rtenCount_spec hs n' offset slen hbl hst hr.2]
+      simp only [finish, tryFromDataG_eq]
       unfold tryFromData
       rw [hm]
   · -- old: "invalid tensor data offset"
@@ -565,12 +866,13 @@ theorem c05_fix_conservative_stored (size : U) (shape : List U) (offset slen : U
 
 /-- **The fix is conservative (whole `add_graph_constant`)**: on every constant for which the
 old release-build loader did not panic, the fixed loader answers identically. -/
-theorem c05_fix_conservative (f : RtenFile) (c : RtenConst)
+theorem c05_fix_conservative (ovf : Bool) (f : RtenFile) (c : RtenConst) (hfb : InFile f c)
     (h : Old.addGraphConstant false f c ≠ .panic) :
-    addGraphConstant f c = Old.addGraphConstant false f c := by
+    addGraphConstant ovf f c = Old.addGraphConstant false f c := by
   obtain ⟨dims, ty, data⟩ := c
   unfold Old.addGraphConstant at h ⊢
   unfold addGraphConstant
+  unfold InFile at hfb
   cases data with
   | stored off =>
     simp only at h ⊢
@@ -585,13 +887,14 @@ theorem c05_fix_conservative (f : RtenFile) (c : RtenConst)
         by_cases hty : ty = .other
         · simp only [hty, if_true]
         · simp only [hty, if_false] at h ⊢
-          refine c05_fix_conservative_stored _ _ _ _ ?_ h
-          cases ty <;> simp_all [RType.size]
-  | inline n =>
-    simp only at h ⊢
+          exact c05_fix_conservative_stored _ _ _ _ RType.size_cases h ovf
+  | inline n start =>
+    simp only at h ⊢ hfb
     by_cases hty : ty = .other
     · simp only [hty, if_true]
     · simp only [hty, if_false] at h ⊢
+      rw [inlineCount_spec _ _ _ _ hfb]
+      simp only [finish, tryFromDataG_eq]
       unfold fromData at h ⊢
       unfold tryFromData
       cases hm : M.tryFromData dims n with
@@ -602,7 +905,7 @@ theorem c05_fix_conservative (f : RtenFile) (c : RtenConst)
 `2^62 ≤ isize::MAX`, times 4 would overflow) loads with the old and with the fixed code; a
 fold that starts from the element size — the first version of the fix — would reject it. -/
 theorem c05_fix_keeps_empty_constants :
-    addGraphConstant ⟨some 400, 408⟩ ⟨[2147483648, 2147483648, 0], .f32, .stored 8⟩ =
+    addGraphConstant true ⟨some 400, 408⟩ ⟨[2147483648, 2147483648, 0], .f32, .stored 8⟩ =
       .ok [2147483648, 2147483648, 0] 0 ∧
     Old.addGraphConstant false ⟨some 400, 408⟩ ⟨[2147483648, 2147483648, 0], .f32, .stored 8⟩ =
       .ok [2147483648, 2147483648, 0] 0 ∧
